@@ -155,7 +155,7 @@ func runC15(cfg *vh.Config) error {
 				}
 				in["step"] = o.Step
 				if c.collides && reConfusion.MatchString(sig+" "+got) {
-					sig = "C15 two descriptors with the same split name (package, names joined by _) -> type confusion in " + o.Step
+					sig = "C15 two descriptors with the same split name (package, names joined by _) -> type confusion in the reader"
 				}
 				res.Fail(vh.Failure{Case: c.id, Stream: o.Step, Sig: sig, Clause: clause, Input: in, Got: got})
 			}
